@@ -26,7 +26,7 @@ DEFAULT_FEATURES = {
     "refined": 4, "cls": 6, "list": 2, "annlist": 3, "tuple": 0, "union": 1, "dependent": 0, "flaky": 0,
     "weights": 0, "nested": 1, "standalone": 1, "unreachable": 1, "plain": 1, "infeasible": 0,
     "max_abstract": 3, "max_classes": 9, "max_fields": 3, "future_annotations": 0, "concrete_start": 0,
-    "base_in_list": 1, "finite": 0, "nested_generic": 0,
+    "base_in_list": 1, "finite": 0, "nested_generic": 0, "nested_list": 0, "deep_chain": 0, "self_ref": 0, "multi_dependent": 0,
 }
 
 
@@ -124,7 +124,11 @@ def gen_type(H: Chooser, feat, refs, level=0, allow_dependent_on=None, finite=Fa
     if k == "cls":
         return ["cls", H.pick(refs)]
     if k in ("list", "annlist"):
-        if feat.get("nested_generic") and refs and H.draw(4) < feat["nested_generic"]:
+        if feat.get("nested_list") and H.draw(5) < feat["nested_list"]:
+            # a list of lists: list[list[T]] / Annotated[list[list[T]], ...] / list[Annotated[list[T], ...]]
+            leaf = ["cls", H.pick(refs)] if (refs and H.draw(2)) else [H.pick(["int", "bool"])]
+            inner = ["list", leaf] if H.draw(2) else ["ann", ["list", leaf], gen_list_refinement(H)]
+        elif feat.get("nested_generic") and refs and H.draw(4) < feat["nested_generic"]:
             # a union or tuple as the element type: list[Union[A, int]], Annotated[list[tuple[A, B]], ...]
             parts = [["cls", H.pick(refs)]] + [H.pick([["cls", H.pick(refs)], ["bool"], ["int"]]) for _ in range(1 + H.draw(2))]
             if H.draw(2):
@@ -219,7 +223,12 @@ def gen_spec(H: Chooser, feat=None) -> dict:
                     if r[0] == "WeightedString":
                         r = ["VarRange", ["w"]]
                 table.append([kv, r])
-            fields = [["k0", key_t]] + fields[: feat["max_fields"] - 2] + [["d0", ["ann", [dep_base], ["Dependent", "k0", table]]]]
+            if feat.get("multi_dependent") and H.draw(2):
+                # a refinement depending on TWO siblings, named in non-alphabetical order, through a non-symmetric function
+                fields = [["k0", ["ann", ["int"], ["IntRange", 0, 2]]], ["k1", ["ann", ["int"], ["IntRange", 5, 6]]]] + fields[: max(0, feat["max_fields"] - 3)]
+                fields.append(["d0", ["ann", ["int"], ["Dependent2", "k1,k0"]]])  # value in [k1 - k0, k1]
+            else:
+                fields = [["k0", key_t]] + fields[: feat["max_fields"] - 2] + [["d0", ["ann", [dep_base], ["Dependent", "k0", table]]]]
         return fields
 
     # every abstract type gets one production that is guaranteed to terminate (base fields only)
@@ -240,6 +249,26 @@ def gen_spec(H: Chooser, feat=None) -> dict:
         if infeasible and a == abstracts[-1]:
             continue
         classes.append({"name": f"C{n_conc}", "kind": ckind(), "parent": a, "weight": weight(), "fields": gen_fields(refs_all)})
+        n_conc += 1
+    if feat.get("deep_chain") and H.draw(3) == 0:
+        # K0 <- K1 <- K2 <- K3: a chain of concrete classes, used by a recursive production (deep non-abstract path)
+        depth = 2 + H.draw(3)
+        for j in range(depth):
+            classes.append({"name": f"K{j}", "kind": "data", "parent": None, "weight": None,
+                            "fields": [["f0", ["bool"] if j == 0 else ["cls", f"K{j - 1}"]]]})
+        a = H.pick(abstracts)
+        classes.append({"name": f"C{n_conc}", "kind": "data", "parent": a, "weight": None,
+                        "fields": [["f0", ["cls", f"K{depth - 1}"]], ["f1", ["cls", a]]] if H.draw(2) else [["f0", ["cls", a]], ["f1", ["cls", f"K{depth - 1}"]]]})
+        n_conc += 1
+    if feat.get("self_ref") and H.draw(3) == 0:
+        # a production that names a concrete production (itself or a sibling) directly in a field type
+        a = H.pick(abstracts)
+        me = f"C{n_conc}"
+        sibs = [c["name"] for c in classes if c["parent"] == a and c["kind"] in ("data", "plain")]
+        target = me if (H.draw(2) or not sibs) else H.pick(sibs)
+        shape = H.draw(3)
+        ft = ["union", [["cls", target], ["bool"]]] if shape == 0 else (["ann", ["list", ["cls", target]], ["ListSizeBetween", 0, 2]] if shape == 1 else ["list", ["cls", target]])
+        classes.append({"name": me, "kind": "data", "parent": a, "weight": None, "fields": [["f0", ft], ["f1", ["bool"]]]})
         n_conc += 1
     for j, d in enumerate(standalone):
         # standalone concrete classes may only mention abstracts and earlier standalone ones (no unbreakable cycle)
@@ -295,6 +324,11 @@ def render_refinement(r, deps: list) -> str:
         return f"IntervalRange({r[1]}, {r[2]}, {r[3]})"
     if k == "Flaky":
         return f"Flaky({render_refinement(r[1], deps)})"
+    if k == "Dependent2":
+        fn = f"_dep{len(deps)}"
+        a, b = r[1].split(",")
+        deps.append(f"def {fn}({a}, {b}):\n    return IntRange({a} - {b}, {a})")
+        return f"Dependent({r[1]!r}, {fn})"
     if k == "Dependent":
         fn = f"_dep{len(deps)}"
         lines = [f"def {fn}({r[1]}):"]
@@ -322,6 +356,17 @@ def render_type(t, deps: list) -> str:
     if k == "ann":
         return f"Annotated[{render_type(t[1], deps)}, {render_refinement(t[2], deps)}]"
     raise ValueError(k)
+
+
+def _mentions(t, names):
+    k = t[0]
+    if k == "cls":
+        return t[1] in names
+    if k in ("list", "ann"):
+        return _mentions(t[1], names)
+    if k in ("tuple", "union"):
+        return any(_mentions(x, names) for x in t[1])
+    return False
 
 
 PRELUDE = '''from abc import ABC
@@ -365,6 +410,9 @@ def render_source(spec) -> str:
             if c.get("weight") is not None:
                 lines.append(f"@weight({c['weight']!r})")
             ftxt = [(fn, render_type(ft, deps)) for fn, ft in c["fields"]]
+            # a field type that mentions the class itself (or a class defined later) is written as a string annotation
+            later = {c["name"]} | {o["name"] for o in order[order.index(c) + 1:]}
+            ftxt = [(fn, repr(tt) if _mentions(ft, later) else tt) for (fn, tt), (_, ft) in zip(ftxt, c["fields"])]
             if c["kind"] == "data":
                 lines += ["@dataclass", f"class {c['name']}{bases}:"]
                 lines += [f"    {fn}: {tt}" for fn, tt in ftxt] or ["    pass"]
